@@ -26,6 +26,30 @@ theorem C05_minimal_diff (f : Str → Str → Except Err Str) (us : List Upd) (l
     ls'.length = ls.length ∧ ∀ i, (∀ u ∈ us, u.lineNo - 1 ≠ i) → ls'[i]? = ls[i]? :=
   updateLines_spec f us ls ls' h
 
+/-- **File and index agree on the rewritten first line**: the body `_add_zids` stores in the index
+(`addZidToBody`, computed from the compiled body) is exactly what follows the prefix in the line that
+`_add_zid_to_line` writes (`C05_zid_after_prefix`) — for every body whose first word is not blank. -/
+theorem C05_index_body_agrees (zid : Str) (body : List Str) (hb : body ≠ []) (hsp : ∀ w ∈ body, ' ' ∉ w)
+    (hh : ∀ w, body.head? = some w → ∃ c cs, w = c :: cs ∧
+      (c == ' ' || c == '\t' || c == '\n' || c == '\r' || c == '\x0b' || c == '\x0c') = false) :
+    addZidToBody zid (joinSp body) = zid ++ [' '] ++ joinSp (dropLeading isLongDate body) := by
+  cases body with
+  | nil => exact absurd rfl hb
+  | cons w r =>
+    obtain ⟨c, cs, hw, hc⟩ := hh w rfl
+    have hj : ∃ t, joinSp (w :: r) = c :: t := by
+      subst hw
+      exact ⟨_, joinWith_consChar [' '] c cs r⟩
+    obtain ⟨t, ht⟩ := hj
+    unfold addZidToBody
+    have hd : (joinSp (w :: r)).dropWhile (fun c => c == ' ' || c == '\t' || c == '\n' || c == '\r' || c == '\x0b' || c == '\x0c')
+        = joinSp (w :: r) := by
+      rw [ht, List.dropWhile_cons, hc]; rfl
+    simp only [hd]
+    rw [splitOn_joinSp (w :: r) (by simp) hsp]
+    simp only [dropLeading]
+    split <;> rfl
+
 /-- splitting a line at spaces and joining it again is the identity (the rewriting loses no character) -/
 theorem C05_split_join (s : Str) : joinSp (splitOn ' ' s) = s := joinSp_splitOn s
 
@@ -34,5 +58,8 @@ example : (addZidToLine "240615#00".toList "  o P1   2024-01-02 spaced  todo".to
 example : (addZidToLine "240615#00".toList "- P5 is a word".toList).toOption = some ("- 240615#00 P5 is a word".toList) := by decide +kernel
 example : (addZidToLine "240615#00".toList "- 1234567890 is my phone".toList).toOption = some ("- 240615#00 1234567890 is my phone".toList) := by decide +kernel
 example : addZidToBody "240615#00".toList "2024-01-02 spaced  todo".toList = "240615#00 spaced  todo".toList := by decide +kernel
+-- `C05_index_body_agrees` on a concrete body: what the index stores is what the file line shows after the prefix
+example : addZidToBody "240615#00".toList (joinSp ["2024-01-02".toList, "buy".toList, "milk".toList]) =
+    "240615#00".toList ++ [' '] ++ joinSp (dropLeading isLongDate ["2024-01-02".toList, "buy".toList, "milk".toList]) := by decide +kernel
 
 end ZorgVerif.C05
